@@ -232,7 +232,7 @@ where
             if !interlock.receiver.check_local() {
                 return Err(ser::Error::custom("cannot send sender because receiver has been sent"));
             }
-            interlock.receiver.start_send()
+            interlock.sender.start_send()
         };
 
         let port = PortSerializer::connect(move |connect| {
